@@ -10,7 +10,7 @@ From Common Require Import Prelude.
 From C14 Require Import Crc.
 Open Scope Z_scope.
 
-Definition bytes := list Z.
+Notation bytes := (list Z) (only parsing).
 Definition is_byte (b : Z) : Prop := 0 <= b < 256.
 Definition is_byteb (b : Z) : bool := (0 <=? b) && (b <? 256).
 
@@ -74,7 +74,7 @@ Fixpoint opp_loop (fuel : nat) (buf : bytes) (lost : bool) : (bytes * bool) * li
         end
   end.
 
-Definition ost := (bytes * bool)%type.
+Notation ost := (list Z * bool)%type (only parsing).
 Definition opp_init : ost := ([], false).
 
 Definition opp_feed (s : ost) (chunk : bytes) : ost * list bytes :=
